@@ -1526,6 +1526,10 @@ func (f *frame) assertsAt(ins ssa.Instruction, st *State) {
 		}
 		an, pos := f.anchor(ins)
 		f.e.addOb("assert", a.Spec.Text+"|"+an, a.Spec.Tags, pos, st.cond, t)
+		// vacuity guard: the anchored call must be reachable in the model, otherwise the assertion says nothing
+		if f.e.probe == 0 {
+			f.e.items = append(f.e.items, item{ob: &Obligation{Name: f.root.ct.Rel + "#cover:assert:" + a.Spec.Text + "|" + an, Fn: f.root.ct.Rel, Kind: "cover", Tags: a.Spec.Tags, Goal: st.cond, idx: len(f.e.items)}})
+		}
 		if f.e.probe == 0 {
 			f.assertHit[a.Spec] = true
 		}
